@@ -1,6 +1,6 @@
 (* Lemmas about the parsers of Codec.v: they never reach a Panic outcome (for any oracle answers, for every
    input), never return "no value and no error", and whatever they accept is well-formed. *)
-From Coq Require Import List NArith ZArith Bool Lia.
+From Coq Require Import List NArith ZArith Bool Lia ZifyBool ZifyNat ZifyN.
 From Coq.Strings Require Import Byte.
 Import ListNotations.
 From BWValues Require Import Bytes BytesProofs Values Codec.
